@@ -475,6 +475,27 @@ func c11Registry(c *Ctx) {
 				if miss && strings.Contains(x.String(), "Unknown") {
 					okFallback = true
 				}
+				if !miss && strings.Contains(x.String(), "Unknown") {
+					// the opaque fallback may be shared by "not registered" and "registered but unusable" (a nil factory,
+					// a factory that hands back nil): it is reached from the miss edge among others
+					for _, mb := range nt.SSA.Blocks {
+						if _, onMiss := c.GuardedB(mb, Extract("1", Op("lookup", "", Field("protocols", Any()), Op("param", ""))), false); onMiss && ReachableFrom(mb)[b] {
+							okFallback = true
+						}
+					}
+					// (a short-circuit 'ok && factory != nil' has no block under the miss fact alone: the lookup's false edge leads here)
+					if !okFallback {
+						instrs(nt.SSA, func(in ssa.Instruction) {
+							if iff, isIf := in.(*ssa.If); isIf {
+								if _, m := Match(Extract("1", Op("lookup", "", Field("protocols", Any()), Op("param", ""))), c.E(iff.Cond)); m && len(iff.Block().Succs) == 2 {
+									if f := iff.Block().Succs[1]; f == b || ReachableFrom(f)[b] {
+										okFallback = true
+									}
+								}
+							}
+						})
+					}
+				}
 				if hit && x.Op == "dyncall" {
 					okHit = true
 				}
@@ -731,6 +752,10 @@ func c11Cursor(c *Ctx) {
 		return true
 	}
 	// the reader is a buffer over the current remainder B
+	// (the reader may be narrowed to a read-only view: struct{ io.Reader }{buf} exposes Read alone and behaves as buf does)
+	if v := strip(rd.X.Args[1]); v != nil && v.Op == "complit" && len(v.Args) == 1 && v.Args[0].Op == "fieldinit" && v.Args[0].Name == "Reader" && len(v.Args[0].Args) == 1 {
+		rd.X = &X{Op: rd.X.Op, Name: rd.X.Name, V: rd.X.V, Args: []*X{rd.X.Args[0], v.Args[0].Args[0]}}
+	}
 	bb, ok := Match(Call("bytes.NewBuffer", Bind("B")), rd.X.Args[1])
 	if !ok {
 		bb, ok = Match(Call("bytes.NewReader", Bind("B")), rd.X.Args[1])
